@@ -157,10 +157,40 @@ pub fn run(ctx: &Ctx) -> Report {
                 _ => {}
             }
         }
-        for (entry, ops, strict) in &scenarios {
+        // every scenario also on a panel that is still busy when the call under test starts (BUSY asserted for
+        // three polls after each busy-raising command): a driver that first waits by polling over SPI breaks the rule
+        let mut runs: Vec<(&(String, Vec<Op>, bool), Option<u32>, bool)> = Vec::new();
+        for sc in &scenarios {
             for d in delays {
+                runs.push((sc, *d, false));
+            }
+            if !sc.1.is_empty() {
+                runs.push((sc, None, true));
+            }
+        }
+        // busy twin of the plain wake_up scenarios with a refresh right before
+        let busy_extra: Vec<(String, Vec<Op>, bool)> = vec![
+            ("wake_up".into(), vec![Op::new(K::Display), Op::new(K::WakeUp)], true),
+            ("wake_up".into(), vec![Op::new(K::Clear), Op::new(K::WakeUp)], true),
+            ("wake_up".into(), vec![frame_op(spec, K::UpdateAndDisplay, 5), Op::new(K::Display), Op::new(K::WakeUp)], true),
+        ];
+        for sc in &busy_extra {
+            runs.push((sc, None, true));
+        }
+        for ((entry, ops, strict), d, busy) in runs.iter().map(|(sc, d, b)| (*sc, d, *b)) {
+            {
                 rep.eval(spec.name);
-                let rig = Rig::new(spec, |_| {}, *d, false);
+                let rig = Rig::new(
+                    spec,
+                    |b| {
+                        if busy {
+                            b.busy_mode = crate::hal::BusyMode::Physical;
+                            b.chips[0].busy.default_d = 3;
+                        }
+                    },
+                    *d,
+                    false,
+                );
                 let mut rig = match rig {
                     Ok(r) => r,
                     Err((o, _)) => {
@@ -187,8 +217,8 @@ pub fn run(ctx: &Ctx) -> Report {
                 rep.count("rst_edges", seg.iter().filter(|e| matches!(e, Ev::PinSet { pin: Pin::Rst, .. })).count() as u64);
                 rep.count("pulses", npulse as u64);
                 rep.count("events_examined", seg.len() as u64);
-                rep.nontrivial(hash_str(&format!("{}|{}|{:?}|{}", spec.name, ops_short(ops), d, entry)));
-                let case = case_json(spec, &ctx.variant, ops).set("entry", entry.as_str()).set("delay_us", d.map(|x| x as i64));
+                rep.nontrivial(hash_str(&format!("{}|{}|{:?}|{}|{}", spec.name, ops_short(ops), d, entry, busy)));
+                let case = case_json(spec, &ctx.variant, ops).set("entry", entry.as_str()).set("delay_us", d.map(|x| x as i64)).set("panel_busy_at_entry", busy);
                 if rep.samples.len() < 6 {
                     rep.sample(case.clone().set("pulses", npulse));
                 }
@@ -199,7 +229,7 @@ pub fn run(ctx: &Ctx) -> Report {
                     };
                     // the idle-delay setting is only a tag when it matters (0 must not remove reset delays)
                     let _ = dtag;
-                    rep.fail(Failure { panel: spec.name.into(), entry: entry.clone(), class: class.into(), tags: vec![], detail: format!("{} (delay_us={:?}, history: {})", detail, d, ops_short(ops)), case: case.clone() });
+                    rep.fail(Failure { panel: spec.name.into(), entry: entry.clone(), class: class.into(), tags: if busy { vec!["panel-busy".into()] } else { vec![] }, detail: format!("{} (delay_us={:?}, history: {}{})", detail, d, ops_short(ops), if busy { ", panel busy for three polls after each busy-raising command" } else { "" }), case: case.clone() });
                 }
             }
         }
